@@ -24,6 +24,8 @@ func Main() {
 	explain := flag.String("explain", "", "print a replay file")
 	list := flag.Bool("list", false, "list properties")
 	noControls := flag.Bool("no-controls", false, "skip positive-control overlays")
+	mutant := flag.String("mutant", "", "(internal) run the property on one catalogue mutant applied as an in-memory overlay and print MUTANT-RESULT")
+	noSelftest := flag.Bool("no-selftest", false, "thorough tier: skip the overlay self-validation")
 	flag.Parse()
 
 	if *list {
@@ -60,6 +62,9 @@ func Main() {
 	if p == nil {
 		fmt.Printf("unknown property %q (have %s)\n", *prop, strings.Join(props.IDs(), ","))
 		os.Exit(2)
+	}
+	if *mutant != "" {
+		os.Exit(runMutant(p, *repo, *verif, *mutant))
 	}
 	run := ob.NewRun(p.ID, *tier, seed, *verif)
 	run.Explanation = p.Explanation
@@ -120,6 +125,9 @@ func Main() {
 		for k, v := range run.Floors {
 			run.Floors[k] = v * len(configs)
 		}
+	}
+	if *tier == "thorough" && !*noSelftest {
+		selftest(run, p.ID, *repo, *verif, seed)
 	}
 	os.Exit(run.Finish())
 }
